@@ -55,6 +55,7 @@ type collSpan struct {
 	Pad  int   `json:"pad,omitempty"`  // length of the padding field (controls DataSize)
 	Kind int   `json:"kind,omitempty"` // 0 span, 1 span event, 2 link
 	Age  int64 `json:"age,omitempty"`  // real-clock age given to the span after it was buffered (ns)
+	Via  int   `json:"via,omitempty"`  // 0: processSpan called directly on the parked worker; 1: real AddSpan; 2: real AddSpanFromPeer (channel + worker loop)
 }
 
 type collCfg struct {
@@ -463,7 +464,40 @@ func collRun(in collInput) (*collResult, error) {
 			sp.Data.MetaAnnotationType = kind
 			res.Sizes[s.Sid] = sp.GetDataSize()
 			w := res.Owner[s.Tid]
-			coll.VerifC01ProcessSpan(w, sp)
+			if s.Via == 0 {
+				coll.VerifC01ProcessSpan(w, sp)
+			} else {
+				// the real ingest path: AddSpan routes by trace id and queues the span; the worker's
+				// own loop takes it from the channel and calls processSpan
+				unpark()
+				var err error
+				if s.Via == 1 {
+					err = coll.AddSpan(sp)
+				} else {
+					err = coll.AddSpanFromPeer(sp)
+				}
+				if err != nil {
+					return nil, fmt.Errorf("AddSpan: %v", err)
+				}
+				for t0 := time.Now(); time.Since(t0) < 5*time.Second; {
+					q := 0
+					for k := 0; k < nw; k++ {
+						q += coll.VerifC01QueueLen(k)
+					}
+					if q == 0 {
+						break
+					}
+					time.Sleep(20 * time.Microsecond)
+				}
+				park() // returns when every worker is back in its select: processSpan has finished
+				for k, b := range snapshot() { // the worker that really got the span
+					for _, e := range b {
+						if e.Tid == s.Tid {
+							w = k
+						}
+					}
+				}
+			}
 			if s.Age > 0 {
 				sp.ArrivalTime = time.Now().Add(-time.Duration(s.Age))
 			}
